@@ -197,7 +197,10 @@ def compare_case(ctx, exe, pol, case):
 
 def make_case(rng, full=False):
     h = H.gen_history(rng)
-    h["post"] = H.probe_ops(h["db_after"], rng, full)
+    first = h.get("last_input") if rng.random() < 0.35 else None      # same input right before and right after the load
+    if first:
+        h["tags"].append("same-input-after-load")
+    h["post"] = H.probe_ops(h["db_after"], rng, full, first=first)
     return h
 
 
@@ -291,10 +294,12 @@ def run(ctx):
     ctx.build_lib()
     exe = ctx.build_harness("ph_reset", extra=("-I", str(vlib.BUILD / "c07gen")))
     pol = Policy(a)
-    n = ctx.n(150, 3000)
+    n = ctx.n(100, 2500)
     if not ok:
         n = max(n, 300)
-    cases = targeted_cases() + [make_case(ctx.rng, full=(ctx.tier == "thorough" and i % 4 == 0)) for i in range(n)]
+    thorough = ctx.tier == "thorough" or not ok
+    cases = (targeted_cases() + H.fail_class_cases(ctx.rng, None if thorough else 1) + H.cross_db_cases(ctx.rng, None if thorough else 30)
+             + [make_case(ctx.rng, full=(thorough and i % 4 == 0)) for i in range(n)])
     stats, hist_tags, evals, nontrivial = {}, {}, 0, set()
     found = False
     with concurrent.futures.ThreadPoolExecutor(max_workers=max(2, vlib.NCPU - 2)) as ex:
